@@ -202,6 +202,7 @@ type Case struct {
 
 var (
 	VerifDir = "/verif"
+	OutDir   = "/verif"
 )
 
 func Main() {
@@ -229,6 +230,10 @@ func Main() {
 	}
 	if d := os.Getenv("VERIF_DIR"); d != "" {
 		VerifDir = d
+	}
+	OutDir = VerifDir
+	if d := os.Getenv("VERIF_OUT"); d != "" {
+		OutDir = d // evidence and replay files of runs against scratch trees go elsewhere
 	}
 	ck := registry[id]
 	if ck == nil {
@@ -494,7 +499,7 @@ func runCheck(ck *Check, tier universe.Tier, tierS string, nworkers int, budget 
 	knownHit := map[*Finding]int{}
 	var harnessErrs []string
 	printed := map[string]bool{}
-	os.MkdirAll(filepath.Join(VerifDir, "replays"), 0o755)
+	os.MkdirAll(filepath.Join(OutDir, "replays"), 0o755)
 	for _, r := range results {
 		if r.HarnessErr != "" {
 			harnessErrs = append(harnessErrs, r.HarnessErr)
@@ -596,7 +601,7 @@ func writeReplay(ck *Check, tierS string, f *FailureRec) string {
 		How: "cd /verif && ./check.sh " + ck.ID + " --replay <this file>"}
 	b, _ := json.MarshalIndent(rf, "", " ")
 	h := sha256.Sum256(b)
-	path := filepath.Join(VerifDir, "replays", fmt.Sprintf("%s-%s-%s.json", ck.ID, f.Phase, hex.EncodeToString(h[:4])))
+	path := filepath.Join(OutDir, "replays", fmt.Sprintf("%s-%s-%s.json", ck.ID, f.Phase, hex.EncodeToString(h[:4])))
 	os.WriteFile(path, b, 0o644)
 	return path
 }
@@ -736,8 +741,8 @@ func writeEvidence(ck *Check, tierS string, results []*PhaseResult, violations i
 		"violations":  violations,
 	}
 	b, _ := json.MarshalIndent(ev, "", " ")
-	os.MkdirAll(filepath.Join(VerifDir, "evidence"), 0o755)
-	os.WriteFile(filepath.Join(VerifDir, "evidence", ck.ID+".json"), append(b, '\n'), 0o644)
+	os.MkdirAll(filepath.Join(OutDir, "evidence"), 0o755)
+	os.WriteFile(filepath.Join(OutDir, "evidence", ck.ID+".json"), append(b, '\n'), 0o644)
 }
 
 func tierOf(s string) universe.Tier {
